@@ -62,7 +62,11 @@ let () = run_lines (fun toks ->
      | ds :: cs ->
        let c = List.map zs (take (int_of_string ds + 1) cs) in
        let c = strip_trailing_zeros (List.map (fun x -> Model.Z.modulo x p) c) in
+       let cks = Model.poly_ComputeCk p pts in
+       let ckstr = String.concat "" (List.map (fun ck -> let ck = strip_trailing_zeros ck in
+                                                 string_of_int (List.length ck - 1) ^ " " ^ grp ck) cks) in
        grp (strip_trailing_zeros (Model.poly_RnsToRing p pts r)) ^ "| " ^ grp (Model.poly_RingToRns p pts c)
+       ^ "| " ^ string_of_int (List.length pts) ^ " " ^ grp (List.map (fun x -> Model.Z.modulo x p) pts) ^ "| " ^ ckstr ^ "| 1"
   | _ -> "BAD-LINE")
   | ["skip"] -> "SKIP"
   | _ -> "BAD-LINE")
